@@ -50,6 +50,8 @@ def flatten(t, job, name, first_id, t0=1000, dur=5):
         for k in node[1]:
             go(k, i)
     go(t, None)
+    if (job * 7 + first_id) % 3 == 0:
+        evs[0]["par"] = 0          # the root's missing parent delivered as "" (OTLP JSON) instead of null
     return evs
 
 
